@@ -344,6 +344,9 @@ Proof.
   - (* revoke uid *) apply upd_good; auto. intros ob Hg. destruct (find_uid isuid c (p_uids (o_key ob))) as [j|] eqn:F; auto.
     destruct (revoke_ok ob); auto. simpl. destruct (find_uid_spec _ _ _ _ F) as [u [Hn [E1 E2]]].
     eapply good_attach; eauto. unfold uid_sig_ok. simpl. rewrite E1, E2. apply verifies_sign.
+  - (* attestation by the key on its own identity *) apply upd_good; auto. intros ob Hg. destruct (find_uid isuid c (p_uids (o_key ob))) as [j|] eqn:F; auto.
+    destruct (certify_ok ob); auto. simpl. destruct (find_uid_spec _ _ _ _ F) as [u [Hn [E1 E2]]].
+    eapply good_attach; eauto. unfold uid_sig_ok. simpl. rewrite E1, E2. apply verifies_sign.
   - (* add_subkey *) apply upd_good; auto. intros ob Hg. destruct (p_public (o_key ob) || negb (o_lock ob =? 0)) eqn:E; auto.
     apply orb_false_iff in E. destruct E as [Ep _]. simpl.
     apply good_sub_set; auto.
@@ -425,30 +428,52 @@ Proof.
   destruct Hy as [Hy|Hy]; [subst; apply H1; apply in_or_app; right; left; reflexivity | eapply IH; eauto].
 Qed.
 
-(* selfsig is a self-issued signature, no self-issued signature is newer, and none stands behind it *)
+(* selfsig (after repair 812bc0f) is a CERTIFICATION issued by the key, no certification issued by the key is newer, and none
+   stands behind it *)
 Theorem effective_is_most_recent : forall K u s, sortedb sig_lt (u_sigs u) = true -> selfsig K u = Some s ->
-  In s (u_sigs u) /\ c_issuer (s_core s) = K
-  /\ forall s', In s' (u_sigs u) -> c_issuer (s_core s') = K -> c_created (s_core s') <= c_created (s_core s).
+  In s (u_sigs u) /\ c_issuer (s_core s) = K /\ is_cert_type (c_type (s_core s)) = true
+  /\ forall s', In s' (u_sigs u) -> c_issuer (s_core s') = K -> is_cert_type (c_type (s_core s')) = true ->
+       c_created (s_core s') <= c_created (s_core s).
 Proof.
   intros K u s Hs H. unfold selfsig in H. apply find_rev_last in H. destruct H as [l1 [l2 [E [Hf Hl2]]]].
-  apply Z.eqb_eq in Hf. rewrite E. repeat split; auto.
-  - apply in_or_app. right. left. reflexivity.
-  - intros s' Hin Hi. apply in_app_or in Hin. destruct Hin as [Hin|[Hin|Hin]].
-    + rewrite E in Hs. pose proof (sortedb_app_mid sig_lt l1 s l2 Hs s' Hin) as L. unfold sig_lt, score_lt in L. lia.
-    + subst. lia.
-    + specialize (Hl2 s' Hin). apply Z.eqb_neq in Hl2. contradiction.
+  apply andb_true_iff in Hf. destruct Hf as [Hc Hf]. apply Z.eqb_eq in Hf. rewrite E.
+  split; [apply in_or_app; right; left; reflexivity|]. split; [exact Hf|]. split; [exact Hc|].
+  intros s' Hin Hi Hc'. apply in_app_or in Hin. destruct Hin as [Hin|[Hin|Hin]].
+  - rewrite E in Hs. pose proof (sortedb_app_mid sig_lt l1 s l2 Hs s' Hin) as L. unfold sig_lt, score_lt in L. lia.
+  - subst. lia.
+  - specialize (Hl2 s' Hin). cbv beta in Hl2. rewrite Hc', Hi, Z.eqb_refl in Hl2. discriminate.
 Qed.
 
-(* the later-added of two same-second self-signatures wins (stable insort) *)
+(* ... and there is none exactly when the key has issued no certification on the identity *)
+Theorem effective_none_iff : forall K u, selfsig K u = None <->
+  forall s, In s (u_sigs u) -> c_issuer (s_core s) = K -> is_cert_type (c_type (s_core s)) = false.
+Proof.
+  intros K u. unfold selfsig. split.
+  - intros H s Hin Hi. apply in_rev in Hin. apply (find_none _ _ H) in Hin. cbv beta in Hin.
+    rewrite Hi, Z.eqb_refl, andb_true_r in Hin. exact Hin.
+  - intros H. destruct (find _ (rev (u_sigs u))) as [s|] eqn:E; [|reflexivity].
+    apply find_some in E. destruct E as [Hin Hq]. apply in_rev in Hin. apply andb_true_iff in Hq. destruct Hq as [Hc Hi].
+    apply Z.eqb_eq in Hi. rewrite (H s Hin Hi) in Hc. discriminate.
+Qed.
+
+(* the later-added of two same-second self-certifications wins (stable insort) *)
 Theorem later_added_wins_ties : forall K u s, sortedb sig_lt (u_sigs u) = true -> c_issuer (s_core s) = K ->
+  is_cert_type (c_type (s_core s)) = true ->
   (forall s', In s' (u_sigs u) -> c_created (s_core s') <= c_created (s_core s)) ->
   selfsig K (uid_or_sig u s) = Some s.
 Proof.
-  intros K u s Hs Hi Hle. unfold selfsig, uid_or_sig. simpl.
+  intros K u s Hs Hi Hc Hle. unfold selfsig, uid_or_sig. simpl.
   rewrite (insort_stable sig_lt sig_lt_negtrans s (u_sigs u) Hs).
-  - rewrite rev_app_distr. simpl. rewrite Hi, Z.eqb_refl. reflexivity.
+  - rewrite rev_app_distr. simpl. rewrite Hc, Hi, Z.eqb_refl. reflexivity.
   - intros y Hy. specialize (Hle y Hy). unfold sig_lt, score_lt. lia.
 Qed.
+
+(* a signature that is not a certification by the key - a certification revocation, an attestation, anything by another key -
+   leaves the effective self-signature of the identity as it was, wherever the deque puts it *)
+(* revoking an identity / attesting on it: what the history step attaches is such a signature *)
+Theorem revocation_keeps_effective : forall K u isuid c t typ, typ = T_CERT_REV \/ typ = T_ATTESTATION ->
+  selfsig K (uid_or_sig u (plain (sign K typ t None false no_info (OnUid K isuid c)))) = selfsig K u.
+Proof. intros K u isuid c t typ [->| ->]; apply noncert_keeps_effective; left; reflexivity. Qed.
 
 (* ---------- removed identities ---------- *)
 Lemma export_uid_packets : forall k isuid c, In (PUid isuid c) (export k) -> exists u, In u (p_uids k) /\ u_isuid u = isuid /\ u_content u = c.
